@@ -38,7 +38,7 @@ def run(shard, tier, seed):
     if shard["i"] % 4 == 3:
         # long histories whose later candidates (honest and broken) sit on parents far below the head
         return chainexec.drive(res, env.subseed(seed, ID, shard["i"]), n // 2, tier, FOCUS, CATS, ID, n_blocks=(18, 26 if tier == "quick" else 40), p_mut=0.5,
-                               p_fork=0.15, p_deep_fork=0.45, p_tx=0.8, p_restart=0.02)
+                               p_fork=0.15, p_deep_fork=0.45, p_tx=0.6, p_restart=0.02, p_big_block=0.3)
     return chainexec.drive(res, env.subseed(seed, ID, shard["i"]), n, tier, FOCUS, CATS, ID, n_blocks=nb, p_mut=0.45,
                            p_copy=0.1, p_restart=0.08, p_fork=0.5)
 
